@@ -294,6 +294,9 @@ def oracle_inject(case: dict, r: Any) -> Optional[Tuple[str, str]]:
                                            for f in beh['pdoc'].get('fields', []))
     pe = {(s, w) for s, w in r['parse_errors']}
     total_reports: Dict[str, int] = {}
+    all_reports: List[Any] = []
+    # docstrings handed to parse_docstring directly with ANOTHER source (their errors go elsewhere / are consumed by the once rule)
+    prior_parse = {op[2]: True for op in case['ops'] if op[0] == 'parse_docstring'}
     seen_fd: Dict[str, int] = {}
     for op, o in zip(case['ops'], r['ops']):
         name, key = op[0], op[1]
@@ -305,6 +308,7 @@ def oracle_inject(case: dict, r: Any) -> Optional[Tuple[str, str]]:
             return ('raises', '%s(%s) raised instead of returning' % (name, key))
         for who, sec, tag in o['reports']:
             total_reports[who] = total_reports.get(who, 0) + 1
+            all_reports.append((who, sec, tag))
         if name == 'format_docstring':
             seen_fd[key] = seen_fd.get(key, 0) + 1
             if seen_fd[key] >= 2 and o['reports'] and key not in case.get('reparsed', []):
@@ -323,6 +327,13 @@ def oracle_inject(case: dict, r: Any) -> Optional[Tuple[str, str]]:
                     return ('unreported', 'parser gave up on the docstring shown for %s but its owner %s is not in parse_errors[docstring]' % (key, src))
                 if not (g == 'pe' and contract_broken) and not total_reports.get(src):
                     return ('unreported', 'parser gave up on the docstring shown for %s but nothing was reported against its owner %s' % (key, src))
+            if own_doc and g == 'exc' and fresh and seen_fd[key] == 1:
+                # the MESSAGES: a crash that is not a ParseError is itself among the reports made for the owner, even when
+                # the parser had recorded recoverable warnings before crashing
+                mine = [t for w, s_, t in all_reports if w == src]
+                if mine and [1] not in mine and not prior_parse.get(own_doc):
+                    return ('crash_unreported', 'the parser crashed on the docstring shown for %s after recording %d warning(s): '
+                            'the crash itself is not among the messages reported against %s: %s' % (key, len(mine), src, mine))
             if o.get('body') == ['broken'] and own_doc:
                 return ('textlost', 'format_docstring(%s) shows "Broken description" although there is a docstring (owner: %s)' % (key, src))
             # a renderer failure of the main body: plaintext of the source's docstring
@@ -441,6 +452,13 @@ def oracle_real_all(case: dict, r: Any) -> List[Tuple[str, str]]:
         if doc and (r['body_kind'] != 'pre' or r.get('pre_text') != doc):
             out.append(('fallback', 'the parser gave up (%s) but the body is not the whole docstring as plain text: %r'
                         % (gave_up, r.get('body_html', '')[:160])))
+    if gave_up and gave_up != 'ParseError':
+        # the MESSAGES: an internal failure (not a ParseError the parser recorded itself) must be among what is reported,
+        # whatever recoverable warnings the parser had recorded before it crashed
+        if not any(t.startswith('bad docstring: %s:' % gave_up) for t in r.get('report_texts', [])):
+            out.append(('crash_unreported', 'the parser crashed with %s (after recording %d other message(s)) and the docstring is '
+                        'degraded to plain text, but the crash itself is not among the reported messages: %s'
+                        % (gave_up, len(r.get('report_texts', [])), r.get('report_texts', [])[:3])))
     if case['fmt'] == 'epytext' and r.get('fatal_left') and not gave_up:
         out.append(('fatal_not_raised', 'the epytext parser recorded %d FATAL error(s) and still returned a parsed docstring: '
                     'the docstring is rendered as markup, not as plain text' % r['fatal_left']))
@@ -637,6 +655,17 @@ class Gen:
             return 'harvest', s
         return 'unicode', self.unicode_soup()
 
+
+# complete cases (docformat, --process-types and kind fixed) run first
+CORPUS_FORCED = [
+    # a recoverable warning, THEN an internal crash of the parser: both must be reported
+    {'text': '`unbalanced backquote\n\n.. include:: defaults\x00.rst', 'fmt': 'restructuredtext', 'pt': 0, 'kind': 'function', 'order': 'sdt'},
+    {'text': 'Args:\n    x: `unbalanced\n\n.. include:: defaults\x00.rst', 'fmt': 'google', 'pt': 0, 'kind': 'method', 'order': 'dst'},
+    {'text': 'Parameters\n----------\nx : `unbalanced\n\n.. include:: defaults\x00.rst', 'fmt': 'numpy', 'pt': 1, 'kind': 'class', 'order': 'sdt'},
+    # ... and a crash of the --process-types step after an epytext warning
+    {'text': 'Text.\n\n@param x bad item\n@rtype: {C{int}, C{str}}', 'fmt': 'epytext', 'pt': 1, 'kind': 'function', 'order': 'sdt'},
+    {'text': 'Text.\n\n:rtype: {`int`, `str`}', 'fmt': 'restructuredtext', 'pt': 1, 'kind': 'inherited', 'order': 'tds'},
+]
 
 CORPUS_REAL = [
     # long INVALID link targets: rejecting them must take no time (an ambiguous nested quantifier in the target check
@@ -904,12 +933,12 @@ class Check(PropertyCheck):
         texts: List[Tuple[str, str]] = [('corpus', t) for t in CORPUS_REAL]
         while len(texts) < nstrings:
             texts.append(g.text())
-        for stream, t in texts:
-            for f in fmts:
-                out.append({'k': 'real', 'text': t, 'fmt': f, 'pt': k % 2, 'kind': kinds[(k // 2) % len(kinds)], 'stream': stream,
-                            'order': ('sdt', 'dst', 'tds')[(k // 3) % 3]})
-                k += 1
-            k += 1
+        for i, (stream, t) in enumerate(texts):
+            for j, f in enumerate(fmts):
+                k = i * len(fmts) + j
+                out.append({'k': 'real', 'text': t, 'fmt': f, 'pt': (i + j) % 2, 'kind': kinds[(i + 3 * j) % len(kinds)],
+                            'stream': stream, 'order': ('sdt', 'dst', 'tds')[(i + j // 2) % 3]})
+        out = [dict(c, k='real', stream='corpus') for c in CORPUS_FORCED] + out
         return out
 
     # ------------------------------------------------------------------ check
@@ -992,7 +1021,7 @@ class Check(PropertyCheck):
                 self.keep(out, Violation('oracle', '[%s] %s' % o, case=c, observed={k: r.get(k) for k in
                           ('raised', 'where', 'stage', 'body_kind', 'in_parse_errors', 'reports_obj', 'to_node_failed',
                            'parser_raised', 'hang', 'body_html', 'other', 'other_ref', 'parse_errors', 'qn', 'src_qn',
-                           'fallback_ctx', 'broken_fields', 'field_to_stan_failed', 'field_to_stan_errors', 'fatal_left')}), o[0])
+                           'fallback_ctx', 'broken_fields', 'field_to_stan_failed', 'field_to_stan_errors', 'fatal_left', 'report_texts')}), o[0])
         self.evaluations += len(cases)
         self.stats['real_max_wall_s'] = max([r.get('wall_s', 0) for r in impl] or [0])
 
